@@ -228,6 +228,23 @@ func (e *Env) ident(name string) (Val, types.Type) {
 	case "nil":
 		return BVInt(0, PtrW, false), types.Typ[types.UnsafePointer]
 	}
+	if e.at != nil {
+		// a parameter that the loop itself advances (`for ; c != nil; c = c.outer`): at
+		// the loop head its name means the CURRENT value (the phi), old(c) the entry value
+		for _, ins := range e.at.Instrs {
+			phi, ok := ins.(*ssa.Phi)
+			if !ok {
+				break
+			}
+			if phi.Comment == name {
+				if _, isParam := e.vars[name]; isParam {
+					if v, ok := e.st.regs[phi]; ok {
+						return v, phi.Type()
+					}
+				}
+			}
+		}
+	}
 	if v, ok := e.vars[name]; ok {
 		return v, e.vtypes[name]
 	}
